@@ -71,6 +71,7 @@ func (c *Ctx) c15Value(s *Sub, sub string, v c15Case, enum bool) {
 	P := bn.KwPrint
 	src := P + " " + v.expr + ";\n" + P + " \"\" + " + v.expr + ";\n" + P + " \"p\" + " + v.expr + ";\n" +
 		P + " " + v.expr + " + \"\";\n" + P + " " + v.expr + " + \"s\";\n" + P + " \"p\" + " + v.expr + " + \"s\";\n" +
+		P + " \"\" + " + v.expr + " + 1;\n" + P + " (\"\" + " + v.expr + ") == (" + v.expr + " + \"\");\n" +
 		P + " [" + v.expr + "];\n" + P + " {k: " + v.expr + "};\n" +
 		P + " [1, [" + v.expr + ", 2]];\n" + P + " \"end\";\n"
 	if v.fixed != "" {
@@ -119,8 +120,8 @@ func (c *Ctx) c15Value(s *Sub, sub string, v c15Case, enum bool) {
 		}
 	case v.isNum:
 		ln := strings.Split(strings.TrimSuffix(body, "\n"), "\n")
-		if len(ln) != 9 {
-			fail("newline", fmt.Sprintf("expected 9 lines (one newline per দেখাও), got %d", len(ln)))
+		if len(ln) != 11 {
+			fail("newline", fmt.Sprintf("expected 11 lines (one newline per দেখাও), got %d", len(ln)))
 		}
 		if v.exact != nil {
 			r2, ok := new(big.Rat).SetString(ln[0])
@@ -150,7 +151,14 @@ func (c *Ctx) c15Value(s *Sub, sub string, v c15Case, enum bool) {
 		if ln[5] != "p"+ln[0]+"s" {
 			fail("concat", fmt.Sprintf("\"p\" + v + \"s\" printed %q but v printed %q", ln[5], ln[0]))
 		}
-		for _, cl := range ln[6:] {
+		// what "" + v yields is a string: a further + splices, and it equals v + ""
+		if ln[6] != ln[0]+"1" {
+			fail("concat", fmt.Sprintf("\"\" + v + 1 printed %q but v printed %q", ln[6], ln[0]))
+		}
+		if ln[7] != "true" {
+			fail("concat", fmt.Sprintf("(\"\" + v) == (v + \"\") printed %q", ln[7]))
+		}
+		for _, cl := range ln[8:] {
 			found := false
 			for _, tok := range strings.Fields(strings.NewReplacer("map[", " ", "[", " ", "]", " ", "{", " ", "}", " ", ",", " ", "k:", " ").Replace(cl)) {
 				if v.exact != nil {
@@ -196,7 +204,7 @@ func (c *Ctx) c15Value(s *Sub, sub string, v c15Case, enum bool) {
 			}
 		}
 		rest = rest[len(pl):]
-		for _, w := range []string{v.str, v.str + "s", "p" + v.str + "s"} {
+		for _, w := range []string{v.str, v.str + "s", "p" + v.str + "s", v.str + "1", "true"} {
 			wl := norm.NFC.String(w) + "\n"
 			if !strings.HasPrefix(rest, wl) {
 				fail("concat", fmt.Sprintf("v as the left operand of +: expected %q, output continues %q", wl, clip(rest, 80)))
@@ -334,6 +342,79 @@ func TestC15(t *testing.T) {
 				}
 			}
 			c.Ev.MarkExhaustive("22 nesting depths (1..2000, around 32/64/128/256) x arrays, objects, alternating")
+		})
+		// runs of combining marks behind one base letter.  None of these marks composes with the base or with
+		// another mark, so the NFC form is the run stably sorted by combining class — computed here without the
+		// normalisation library, which is what the interpreter itself uses.  Runs of more than 30 marks are
+		// open finding overlong-mark-run: the library's stream-safe mode inserts U+034F after every 30th mark.
+		c.Sub("combining-mark-runs", func(s *Sub) {
+			type mk struct {
+				r   rune
+				ccc int
+			}
+			marks := []mk{{0x09bc, 7}, {0x09cd, 9}, {0x0323, 220}, {0x0301, 230}, {0x09fe, 230}}
+			var k int64
+			for _, base := range []string{"ক", "x", "য"} {
+				for _, n := range []int{1, 2, 3, 5, 10, 29, 30, 31, 32, 45, 60, 61, 100} {
+					for pat := 0; pat < 6; pat++ {
+						k++
+						if !c.Mine(k) {
+							continue
+						}
+						run := make([]mk, n)
+						for i := range run {
+							switch pat {
+							case 0, 1, 2:
+								run[i] = marks[pat] // one mark repeated
+							case 3:
+								run[i] = marks[4-i%5] // descending classes: must be reordered
+							case 4:
+								run[i] = marks[(i*3)%5]
+							default:
+								run[i] = marks[3+i%2] // equal classes: order must be kept
+							}
+						}
+						if base == "য" && run[0].r == 0x09bc {
+							continue // য + nukta is the one pair here that has a composite (excluded from NFC, but keep clear of it)
+						}
+						in := base
+						for _, m := range run {
+							in += string(m.r)
+						}
+						sorted := append([]mk{}, run...)
+						for i := 1; i < len(sorted); i++ { // stable insertion sort by class
+							for j := i; j > 0 && sorted[j-1].ccc > sorted[j].ccc; j-- {
+								sorted[j-1], sorted[j] = sorted[j], sorted[j-1]
+							}
+						}
+						want := base
+						for _, m := range sorted {
+							want += string(m.r)
+						}
+						src := bn.KwPrint + " \"" + in + "\";\n" + bn.KwPrint + " [\"" + in + "\"];\n" + bn.KwPrint + " \"\" + \"" + in + "\";\n"
+						if n > 30 && c.Open("overlong-mark-run") {
+							c.Ev.Exclude("overlong-mark-run")
+							r := c.RunB(src, "")
+							// the listed finding and nothing else: exactly the stream-safe form of the library
+							if ss := norm.NFC.String(in); r.Out != ss+"\n["+ss+"]\n"+ss+"\n" {
+								s.Violation(Replay{Check: "marks", Sig: "overlong-other", Source: src, Note: "a run of more than 30 marks prints neither its NFC form nor the form of open finding overlong-mark-run", Observed: clip(r.Describe(), 400)})
+							}
+							continue
+						}
+						r := c.RunB(src, "")
+						c.Ev.EnumCase("combining-mark-runs", true, func() string { return src }, fmt.Sprintf("marks-%d", n), fmt.Sprintf("pattern-%d", pat))
+						if r.Class() != "clean" || r.Out != want+"\n["+want+"]\n"+want+"\n" {
+							s.Violation(Replay{Check: "marks", Sig: "mark-run", Source: src, Note: fmt.Sprintf("a base letter followed by %d combining marks must print as the letter and the marks in canonical order (%+q)", n, want), Observed: clip(r.Describe(), 400)})
+						}
+					}
+				}
+			}
+			c.Ev.MarkExhaustive("3 base letters x 13 run lengths (1..100) x 6 patterns over five non-composing marks of four combining classes")
+		})
+		c.Probe("overlong-mark-run", func() bool {
+			in := "ক" + strings.Repeat("\u09bc", 31)
+			r := c.RunB(bn.KwPrint+" \""+in+"\";\n", "")
+			return r.Out != in+"\n"
 		})
 		c.Sub("shared-containers", func(s *Sub) {
 			if c.Shard != 0 {
